@@ -338,11 +338,12 @@ def skolem_valid(pred, n, what):
         p = p.t
     if _isT(p):
         return True
+    # construction-time query: a deterministic resource limit (not wall-clock), nonlinear terms abstracted, so that the shape
+    # of the generated obligations does not depend on machine speed
     s = z3.Solver()
-    s.set("timeout", c.feas_timeout_ms)
-    for h in c.hyps():
+    s.set("rlimit", 2000000)
+    for h in abstract_nl(c.hyps() + [i >= 0, i < zi(n), z3.Not(zb(p))]):
         s.add(h)
-    s.add(i >= 0, i < zi(n), z3.Not(zb(p)))
     c.stats["feas_checks"] += 1
     return s.check() == z3.unsat
 
